@@ -316,10 +316,16 @@ func c03R3(c *Ctx) {
 			// every nil-returning path passes rename
 			rn := rename.(*ssa.Call)
 			for _, ret := range w.Returns() {
-				e := cfgx.Expr(ret.Results[0])
+				v := w.ReturnValues(ret)[0]
+				e := cfgx.Expr(v)
 				if e == "nil" || e == cfgx.Expr(rn) {
 					ok := w.Dominates(rename, ret)
 					c.R.Ob(rule, "WriteFileAtomic:success-return-after-rename", ok, c.Pos(ret), fname(w), "a success return must be dominated by the rename")
+				}
+				// what a return after the rename hands back is the rename's own error (or a literal nil under `rename == nil`)
+				if w.Dominates(rename, ret) {
+					ok := e == cfgx.Expr(rn) || strings.HasPrefix(e, "fmt.Errorf(") || (e == "nil" && w.HasGuard(ret, cfgx.Equals("("+cfgx.Expr(rn)+" == nil)")))
+					c.R.Ob(rule, "WriteFileAtomic:returns-rename-error", ok, c.Pos(ret), fname(w), "after the rename the function must report the rename's error; it returns "+shorten(e)+" (a failed rename reported as success releases a signature whose watermark is not on disk)")
 				}
 			}
 		}
